@@ -31,9 +31,9 @@ def plan(tier, seed):
     shards = []
     parts = 4 if tier == "quick" else 12
     for p in range(parts):
-        shards.append({"interp": "3.12", "leg": "greenlet", "max_chain": 4 if tier == "quick" else 5, "part": p,
+        shards.append({"interp": "3.12", "leg": "greenlet", "max_chain": 4 if tier == "quick" else 6, "part": p,
                        "parts": parts, "seed": seed})
-    shards.append({"interp": "3.12", "leg": "greenback", "max_depth": 8 if tier == "quick" else 16, "seed": seed})
+    shards.append({"interp": "3.12", "leg": "greenback", "max_depth": 8 if tier == "quick" else 24, "seed": seed})
     shards.append({"interp": "3.12", "leg": "lifecycle", "seed": seed, "reps": 5 if tier == "quick" else 30})
     return shards
 
